@@ -19,7 +19,8 @@ ENGINES = [
     dict(name="E1 tables", path="sa/tables.py", kind_free_text="finite-language view of regex syntax trees; embedded IUPAC/CODATA/roman reference tables; literal folding in sa/astu.py"),
     dict(name="E2 dims", path="sa/dims.py", kind_free_text="units-of-measure abstract interpreter (dimension monomials with symbolic exponents, unit-scale tracking)"),
     dict(name="E3 cfg", path="sa/cfg.py", kind_free_text="statement-level CFG, must-pass-through, guard chains, mode pruning"),
-    dict(name="E4 linform", path="sa/astu.py", kind_free_text="linear forms and monomials over opaque atoms"),
+    dict(name="E4 linform", path="sa/astu.py", kind_free_text="linear forms and monomials over opaque atoms; nested canonical sum-of-products form (canon_expr)"),
+    dict(name="E4b rational normal form", path="sa/ratform.py", kind_free_text="exact rational normal form (quotient of expanded polynomials over atoms) with inlined temporaries; algebraic identity by cross-multiplication"),
     dict(name="E5 siblings", path="sa/props", kind_free_text="extracted-fact comparison of sibling implementations"),
     dict(name="selftest", path="sa/selftest.py", kind_free_text="in-memory mutants and twins for every rule (thorough tier)"),
 ]
